@@ -166,6 +166,21 @@ def explore(ctx):
                         s += ["stepw/1", "sleep/1"]
             s += ["stallw/off", "settle", scn.cancel(nw + 1), "settle"]
             lines.append(scn.line("scn", "u%d" % rep, s, extra="nt=1 family=cancel-bursts-behind-busy-writer"))
+        # the client has a tag-extraction function that selects context values: the timeout argument must still become the
+        # deadline of the call (plain, compressed, notification), also under a parent deadline that is further away
+        for rep in range({"quick": 6, "thorough": 60, "search": 12}[tier]):
+            kind = rng.choice(["call", "callc", "notify-stalled"])
+            vals = "%s:%s" % (b"K1".hex(), scn.T(rng.choice([5, ("s", b"v1")])))
+            tagspec = rng.choice(["-", scn.T(("m", [(("s", b"a"), 1)]))]) + "~" + vals
+            if kind == "notify-stalled":
+                s = ["stallw/on", scn.notify(1, nowait=True), "waitinwrite", scn.notify(2, tags=tagspec, timeout=15, nowait=True), "await/n2", "stallw/off", "await/n1", "settle"]
+                exp = "2:ctx"
+            else:
+                ct = 0 if kind == "call" else rng.choice([1, 2])
+                s = ["call/c1/%s/%s/%d/%s/15/nowait" % (scn.M.hex(), scn.T(scn.arg(1)), ct, tagspec), "await/c1", "settle"]
+                exp = "1:ctx"
+            tk = "%s:%s,%s:%s" % (b"K1".hex(), b"t1".hex(), b"K2".hex(), b"t2".hex())
+            lines.append(scn.line("scn", "g%d" % rep, s, extra="nt=1 family=deadline-with-tag-extraction tagkeys=%s expect=%s" % (tk, exp)))
         k = 0
         for rep in range({"quick": 2, "thorough": 20, "search": 4}[tier]):
             for when in ("inflight", "afterwrite"):
